@@ -368,6 +368,9 @@ class NpProxy:
     def _obj(self, a):
         if self.float_arrays_as_objects and a.dtype.kind == "f":
             return a.astype(object).view(SymArray)
+        if a.dtype == object and type(a) is _np.ndarray:
+            # e.g. np.zeros(shape, dtype=x.dtype) with x a symbolic (object) array: the work array can hold terms
+            return a.view(SymArray)
         return a
 
     def zeros(self, shape, dtype=float, **kw):
